@@ -75,6 +75,16 @@ Proof. destruct s; [contradiction|auto]. Qed.
 Lemma lstarts_app s t : lstarts s -> lstarts (s ++ t).
 Proof. destruct s; [contradiction|auto]. Qed.
 
+Lemma name_first n : name_ok n = true -> exists c0 n', n = c0 :: n' /\ lstart_char c0 = true.
+Proof.
+  unfold name_ok. intro H. apply orb_prop in H. destruct H as [H | H].
+  - apply text_eqb_eq in H. subst n. exists 36, []. split; reflexivity.
+  - unfold wf_name in H. destruct n as [|c0 n]; [discriminate|]. repeat (apply andb_prop in H; destruct H as [H ?]).
+    exists c0, n. split; [reflexivity|]. unfold lstart_char. rewrite H. rewrite orb_true_r. reflexivity.
+Qed.
+Lemma sepby_cons2 sp (x y : text) l : sepby sp (x :: y :: l) = x ++ sp ++ sepby sp (y :: l).
+Proof. reflexivity. Qed.
+
 Section Main.
 Variable full : bool.
 Notation pr := (pr full).
@@ -87,13 +97,13 @@ Notation chain := (chain full).
 Notation Q := (Q full).
 Notation OwnSpec := (OwnSpec full).
 
-Lemma begins e : wfp e = true ->
+Lemma begins e : printable e = true ->
   (forall p, starts (pr p e)) /\ (forall p, needs_paren full p e = true \/ (15 <= prec e)%nat -> lstarts (pr p e))
   /\ ((15 <= prec e)%nat -> lstarts (body e)).
 Proof.
   induction e as [v sz|bb|raw|lv path|uo a IHa|o a IHa b0 IHb|c IHc t IHt f0 IHf|l IHl r0 IHr a IHa|s IHs a IHa|es|f IHf args];
     intro Hw.
-  all: match type of Hw with wfp ?e = true =>
+  all: match type of Hw with printable ?e = true =>
          assert (Hb : starts (body e) /\ ((15 <= prec e)%nat -> lstarts (body e))) end;
     [ | destruct Hb as [Hb1 Hb2]; split; [|split];
         [ intro p; rewrite pr_eq; destruct (needs_paren full p _); [reflexivity | exact Hb1]
@@ -104,31 +114,32 @@ Proof.
     assert (lstart_char d0 = true) by (unfold lstart_char; rewrite Hd; reflexivity).
     split; [apply lstart_start; assumption | intro; assumption].
   - destruct bb; split; try intro; reflexivity.
-  - discriminate.
-  - cbn [wfp] in Hw. apply andb_prop in Hw. destruct Hw as [_ Hw]. destruct path as [|n [|? ?]]; try discriminate.
-    cbn [body sepby]. unfold wf_name in Hw. destruct n as [|c0 n]; [discriminate|].
-    repeat (apply andb_prop in Hw; destruct Hw as [Hw ?]).
-    assert (lstart_char c0 = true) by (unfold lstart_char; rewrite Hw; rewrite orb_true_r; reflexivity).
-    split; [apply lstart_start; assumption | intro; assumption].
+  - cbn [printable] in Hw. destruct (str_ok_shape raw Hw) as (bd0 & -> & _). split; [|intro]; reflexivity.
+  - cbn [printable] in Hw. destruct path as [|n path]; [discriminate|]. cbn [forallb] in Hw.
+    apply andb_prop in Hw. destruct Hw as [Hn _].
+    assert (Hl : lstarts (body (EVar lv (n :: path)))).
+    { cbn [body]. unfold print_var. destruct (N.to_nat lv) as [|k]; [|reflexivity]. cbn [repeat app].
+      destruct (name_first n Hn) as (c0 & n' & -> & Hc). destruct path; [exact Hc|]. rewrite sepby_cons2. exact Hc. }
+    split; [apply lstarts_starts; exact Hl | intro; exact Hl].
   - split; [destruct uo; reflexivity | cbn [prec]; lia].
-  - cbn [wfp] in Hw. apply andb_prop in Hw. destruct Hw as [Hwa _]. destruct (IHa Hwa) as (Ha & _).
+  - cbn [printable] in Hw. apply andb_prop in Hw. destruct Hw as [Hwa _]. destruct (IHa Hwa) as (Ha & _).
     split; [|cbn [prec]; destruct o; cbn; lia]. cbn [body]. destruct o; apply starts_app; apply Ha.
-  - cbn [wfp] in Hw. apply andb_prop in Hw. destruct Hw as [Hw _]. apply andb_prop in Hw. destruct Hw as [Hwc _].
+  - cbn [printable] in Hw. apply andb_prop in Hw. destruct Hw as [Hw _]. apply andb_prop in Hw. destruct Hw as [Hwc _].
     destruct (IHc Hwc) as (Hc & _). split; [|cbn [prec]; lia]. cbn [body]. apply starts_app; apply Hc.
-  - cbn [wfp] in Hw. apply andb_prop in Hw. destruct Hw as [_ Hwa]. destruct (IHa Hwa) as (Ha & _).
+  - cbn [printable] in Hw. apply andb_prop in Hw. destruct Hw as [_ Hwa]. destruct (IHa Hwa) as (Ha & _).
     split; [|cbn [prec]; lia]. cbn [body]. apply starts_app; apply Ha.
-  - cbn [wfp] in Hw. apply andb_prop in Hw. destruct Hw as [_ Hwa]. destruct (IHa Hwa) as (Ha & _).
+  - cbn [printable] in Hw. apply andb_prop in Hw. destruct Hw as [_ Hwa]. destruct (IHa Hwa) as (Ha & _).
     split; [|cbn [prec]; lia]. cbn [body]. apply starts_app; apply Ha.
   - split; try intro; reflexivity.
-  - cbn [wfp] in Hw. apply andb_prop in Hw. destruct Hw as [Hwf _]. destruct (IHf Hwf) as (_ & Hf & _).
+  - cbn [printable] in Hw. apply andb_prop in Hw. destruct Hw as [Hwf _]. destruct (IHf Hwf) as (_ & Hf & _).
     assert (Hl : lstarts (pr 16 f)).
     { apply Hf. unfold needs_paren. destruct (Nat.ltb_spec (prec f) 16); [left; reflexivity|right; lia]. }
     cbn [body]. split; [apply lstarts_starts|intro]; apply lstarts_app; exact Hl.
 Qed.
 
-Lemma pr_starts e p : wfp e = true -> starts (pr p e).
+Lemma pr_starts e p : printable e = true -> starts (pr p e).
 Proof. intro Hw. apply (begins e Hw). Qed.
-Lemma body_lstarts e : wfp e = true -> (15 <= prec e)%nat -> lstarts (body e).
+Lemma body_lstarts e : printable e = true -> (15 <= prec e)%nat -> lstarts (body e).
 Proof. intro Hw. apply (begins e Hw). Qed.
 
 (* ---------- reading the statements of a sub-tree ---------- *)
@@ -168,7 +179,7 @@ Proof.
 Qed.
 
 (* ---------- leaves ---------- *)
-Lemma own_num v sz : wfp (ENum v sz) = true -> Parses parse_leaf (badp 16) 1 0 (print_num v sz) (ENum v sz).
+Lemma own_num v sz : printable (ENum v sz) = true -> Parses parse_leaf (badp 16) 1 0 (print_num v sz) (ENum v sz).
 Proof.
   intros Hw f d c b r Hbl Hf Hd HF. destruct f as [|f]; [lia|]. rewrite parse_leaf_S.
   pose proof (num_lex v sz r Hw (follow_sep _ _ HF)) as HL.
@@ -187,19 +198,87 @@ Proof.
     rewrite (tokE b _ r TKeywordFalse HL Hbl) by tx. reflexivity.
 Qed.
 
-Lemma own_var n : wf_name n = true -> Parses parse_leaf (badp 16) 3 0 n (EVar 0 [n]).
+Lemma own_str raw : str_ok raw = true -> Parses parse_leaf (badp 16) 1 0 raw (EStr raw).
 Proof.
-  intros Hw f d c b r Hbl Hf Hd HF. destruct f as [|[|[|f]]]; try lia. rewrite parse_leaf_S.
-  pose proof (lex_name n r Hw (follow_sep _ _ HF)) as HL.
-  rewrite !(tokI b _ r TIdentifier HL Hbl) by tx. cbn [tkind_eqb orb].
-  rewrite parse_var_dots_S. rewrite (tokA b _ r TIdentifier HL Hbl) by tx.
-  rewrite (tokM b _ r TIdentifier HL Hbl) by tx. cbn [tkind_eqb].
-  rewrite parse_var_names_S. rewrite (tokE b _ r TIdentifier HL Hbl) by tx. cbn [bind rev app].
-  destruct (at_linebreak _); [reflexivity|]. rewrite (follow_maybe _ r _ TDot HF eq_refl). reflexivity.
+  intros Hw f d c b r Hbl Hf Hd HF. destruct f as [|f]; [lia|]. rewrite parse_leaf_S.
+  pose proof (lex_string raw r Hw) as HL.
+  rewrite !(tokI b _ r TString HL Hbl) by tx. cbn [tkind_eqb orb].
+  rewrite (tokE b _ r TString HL Hbl) by tx. reflexivity.
+Qed.
+
+(* ---------- variables: leading dots, then names joined by dots ---------- *)
+
+Lemma names_split n path r : sep r ->
+  exists restn, sepby [46] (n :: path) ++ r = n ++ restn /\ sep restn.
+Proof.
+  intro Hr. destruct path as [|m path].
+  - exists r. split; [reflexivity|exact Hr].
+  - exists ([46] ++ sepby [46] (m :: path) ++ r). split; [rewrite sepby_cons2; tx|reflexivity].
+Qed.
+
+Lemma names_loop path : forall n acc f c b r lvl t, blank b -> name_ok n = true -> forallb name_ok path = true ->
+  Follow (badp 16) r -> t = b ++ sepby [46] (n :: path) ++ r -> (length path + 1 <= f)%nat ->
+  parse_var_names f (W c t) lvl acc =
+  POk (EVar lvl (rev acc ++ n :: path)) (W (c + bytes_len b + bytes_len (sepby [46] (n :: path))) r).
+Proof.
+  induction path as [|m path IH]; intros n acc f c b r lvl t Hbl Hn Hp HF -> Hf;
+    (destruct f as [|f]; [cbn [length] in Hf; lia|]); rewrite parse_var_names_S.
+  - cbn [sepby]. pose proof (lex_nameok n r Hn (follow_sep _ _ HF)) as HL.
+    rewrite (tokE b n r TIdentifier HL Hbl) by tx. cbn [bind rev].
+    destruct (at_linebreak _); [reflexivity|]. rewrite (follow_maybe _ r _ TDot HF eq_refl). reflexivity.
+  - rewrite sepby_cons2. cbn [forallb] in Hp. apply andb_prop in Hp. destruct Hp as [Hm Hp].
+    pose proof (lex_nameok n ([46] ++ sepby [46] (m :: path) ++ r) Hn eq_refl) as HL.
+    rewrite (tokE b n ([46] ++ sepby [46] (m :: path) ++ r) TIdentifier HL Hbl) by tx. cbn [bind].
+    rewrite (tokA [] [46] (sepby [46] (m :: path) ++ r) TDot (lex_dot _) blank_nil) by tx.
+    rewrite (tokM [] [46] (sepby [46] (m :: path) ++ r) TDot (lex_dot _) blank_nil) by tx. cbn [tkind_eqb].
+    rewrite (IH m (n :: acc) f _ [] r lvl _ blank_nil Hm Hp HF eq_refl) by (cbn [length] in Hf; lia).
+    cbn [rev]. rewrite <- (app_assoc (rev acc)). change ([n] ++ m :: path) with (n :: m :: path).
+    f_equal. apply W_eq. posnorm. lia.
+Qed.
+
+Lemma bytes_len_dots k : bytes_len (repeat 46 k) = N.of_nat k.
+Proof. induction k as [|k IH]; [reflexivity|]. cbn [repeat bytes_len]. rewrite IH. change (utf8_len 46) with 1. lia. Qed.
+
+Lemma dots_loop k : forall lvl f c b t n path r, blank b -> name_ok n = true -> forallb name_ok path = true ->
+  Follow (badp 16) r -> t = b ++ repeat 46 k ++ sepby [46] (n :: path) ++ r -> (k + length path + 2 <= f)%nat ->
+  parse_var_dots f (W c t) lvl =
+  POk (EVar (lvl + N.of_nat k) (n :: path)) (W (c + bytes_len b + N.of_nat k + bytes_len (sepby [46] (n :: path))) r).
+Proof.
+  induction k as [|k IH]; intros lvl f c b t n path r Hbl Hn Hp HF -> Hf; (destruct f as [|f]; [lia|]); rewrite parse_var_dots_S.
+  - cbn [repeat app]. destruct (names_split n path r (follow_sep _ _ HF)) as (restn & E & Hs).
+    pose proof (lex_nameok n restn Hn Hs) as HL.
+    rewrite (tokA b n restn TIdentifier HL Hbl) by (rewrite E; reflexivity).
+    rewrite (tokM b n restn TIdentifier HL Hbl) by (rewrite E; reflexivity). cbn [tkind_eqb].
+    rewrite (names_loop path n [] f c b r lvl _ Hbl Hn Hp HF eq_refl) by lia.
+    cbn [rev app]. change (N.of_nat 0) with 0. rewrite !N.add_0_r. reflexivity.
+  - cbn [repeat].
+    rewrite (tokA b [46] (repeat 46 k ++ sepby [46] (n :: path) ++ r) TDot (lex_dot _) Hbl) by tx.
+    rewrite (tokM b [46] (repeat 46 k ++ sepby [46] (n :: path) ++ r) TDot (lex_dot _) Hbl) by tx. cbn [tkind_eqb].
+    rewrite (IH (lvl + 1) f _ [] _ n path r blank_nil Hn Hp HF eq_refl) by lia.
+    rewrite Nat2N.inj_succ. replace (lvl + 1 + N.of_nat k) with (lvl + N.succ (N.of_nat k)) by lia.
+    f_equal. apply W_eq. posnorm. lia.
+Qed.
+
+Lemma own_var l n path : name_ok n = true -> forallb name_ok path = true ->
+  Parses parse_leaf (badp 16) (N.to_nat l + length path + 3) 0 (print_var l (n :: path)) (EVar l (n :: path)).
+Proof.
+  intros Hn Hp f d c b r Hbl Hf Hd HF. destruct f as [|f]; [lia|]. rewrite parse_leaf_S. unfold print_var.
+  assert (Hdots : parse_var_dots f (W c (b ++ (repeat 46 (N.to_nat l) ++ sepby [46] (n :: path)) ++ r)) 0 =
+                  POk (EVar l (n :: path)) (W (c + bytes_len b + bytes_len (repeat 46 (N.to_nat l) ++ sepby [46] (n :: path))) r)).
+  { rewrite (dots_loop (N.to_nat l) 0 f c b _ n path r Hbl Hn Hp HF) by (tx || lia).
+    rewrite N2Nat.id, N.add_0_l. f_equal. apply W_eq. rewrite bytes_len_app, bytes_len_dots, N2Nat.id. lia. }
+  destruct (N.to_nat l) as [|k] eqn:El.
+  - cbn [repeat app] in *. destruct (names_split n path r (follow_sep _ _ HF)) as (restn & E & Hs).
+    pose proof (lex_nameok n restn Hn Hs) as HL.
+    rewrite !(tokI b n restn TIdentifier HL Hbl) by (first [rewrite E; reflexivity | rewrite <- app_assoc, E; reflexivity]). cbn [tkind_eqb orb].
+    exact Hdots.
+  - cbn [repeat] in *.
+    rewrite !(tokI b [46] (repeat 46 k ++ sepby [46] (n :: path) ++ r) TDot (lex_dot _) Hbl) by tx. cbn [tkind_eqb orb].
+    exact Hdots.
 Qed.
 
 (* ---------- unary ---------- *)
-Lemma own_un o a : Q a -> wfp a = true ->
+Lemma own_un o a : Q a -> printable a = true ->
   Parses parse_unary (badp 14) (K * size a + 1) (S (pd 14 a)) (unop_text o ++ pr 14 a) (EUn o a).
 Proof.
   intros Qa Wa f d c b r Hbl Hf Hd HF. destruct f as [|f]; [lia|]. rewrite parse_unary_S.
@@ -235,7 +314,7 @@ Proof.
 Qed.
 
 (* ---------- slice ---------- *)
-Lemma own_slice l r0 a : Q l -> Q r0 -> Q a -> wfp r0 = true ->
+Lemma own_slice l r0 a : Q l -> Q r0 -> Q a -> printable r0 = true ->
   Parses parse_slice (badp 12) (K * (size l + size r0 + size a) + 50)
     (Nat.max (pd 13 a) (Nat.max (S (gdep l)) (S (pd 0 r0))))
     (pr 13 a ++ [91] ++ gtext l ++ [58] ++ pr 0 r0 ++ [93]) (ESlice l r0 a).
@@ -344,7 +423,7 @@ Proof.
 Qed.
 
 (* ---------- lists: block elements and call arguments ---------- *)
-Definition ElemOK (x : expr) : Prop := Q x /\ wfp x = true.
+Definition ElemOK (x : expr) : Prop := Q x /\ printable x = true.
 
 Lemma in_size_sum x (es : list expr) : In x es -> (size x + length es <= list_sum (map size es) + 1)%nat.
 Proof.
@@ -364,9 +443,6 @@ Qed.
 
 Lemma follow_comma o rest : Follow (bad0 o) ([44] ++ rest).
 Proof. apply follow_one with (k := TComma); [apply lex_comma | destruct o; reflexivity | reflexivity]. Qed.
-
-Lemma sepby_cons2 sp (x y : text) l : sepby sp (x :: y :: l) = x ++ sp ++ sepby sp (y :: l).
-Proof. reflexivity. Qed.
 
 Lemma block_loop es : forall acc f d c b r0, es <> [] -> Forall ElemOK es -> blank b ->
   (forall x, In x es -> K * size x + length es + 1 <= f)%nat ->
